@@ -384,6 +384,43 @@ class Explorer:
         self.n_states = self.blind_nodes
         return self
 
+    def run_siblings(self):
+        """Two (then three) integrators alive at the same time and advanced alternately: each one's trajectory depends only
+        on ITS state and increments, so it must be bit-identical to its own single-call reference computed before.
+        (Exploration by deep copies cannot see this: a copy gets private buffers even where the originals share them.)"""
+        n0 = len(self.viol)
+        ref_a = self.ref_rows('init', 0)[0]
+        pva_b = self.set_state('Sb', 0)
+        fb = self.strapdown.Integrator(pva_b, self.wa)
+        fb.integrate(self.inc)
+        ref_b = fb.trajectory.values.copy()
+        del fb
+        for plan in ((('a', 1), ('b', 2), ('a', 2), ('b', 1), ('a', N_ROWS), ('b', N_ROWS)),
+                     (('b', 0), ('a', 3), ('b', N_ROWS), ('a', N_ROWS)),
+                     (('a', 2), ('c', 1), ('b', 1), ('a', 1), ('c', 2), ('b', N_ROWS), ('a', N_ROWS))):
+            objs = {'a': self.cls(self.pva0, self.wa), 'b': self.cls(pva_b, self.wa)}
+            if any(w == 'c' for w, _ in plan):
+                objs['c'] = self.cls(self.set_state('Sa', 0), not self.wa)      # a third one, in the other altitude mode
+            cur = {k: 0 for k in objs}
+            for who, k in plan:
+                k = min(k, N_ROWS - cur[who])
+                objs[who].integrate(self.inc.iloc[cur[who]: cur[who] + k])
+                cur[who] += k
+                self.ops_count['sibling'] = self.ops_count.get('sibling', 0) + 1
+            for who, ref in (('a', ref_a), ('b', ref_b)):
+                got = objs[who].trajectory.values
+                if got.shape != ref.shape or np.ascontiguousarray(got).tobytes() != ref.tobytes():
+                    d = float(np.abs(got - ref).max()) if got.shape == ref.shape else float('nan')
+                    self.v('c02-instances-not-independent', 'integrator %r advanced alternately with other live integrators '
+                           '(plan %s) differs from its own single-call reference by %.3e' % (who, list(plan), d), ['SIBLINGS'])
+                if not self.wa:
+                    alt0 = (self.pva0 if who == 'a' else pva_b)['alt']
+                    if (got[:, 2] != alt0).any() or (got[1:, 5] != 0).any():
+                        self.v('c13-altitude-drift:siblings', '2D: integrator %r advanced alternately with other live integrators '
+                               'has altitude %r (supplied %r) / VD %r' % (who, got[:, 2].tolist()[:4], alt0, got[:, 5].tolist()[:4]),
+                               ['SIBLINGS'])
+        return self.viol[n0:]
+
     def replay_blind(self, hist):
         ops = [o for o in hist if o != 'BLIND']
         integ = self.cls(self.pva0, self.wa)
